@@ -64,10 +64,12 @@ def main():
     else:
         cases = []
         for i, b in enumerate(behs):
-            cases.append({"ops": b, "modifiable": i % 2 == 0, "nid": 1, "src": "tlc"})
+            cases.append({"ops": b, "modifiable": i % 2 == 0, "nid": 1, "src": "tlc",
+                          "pdomap": ["ltpdo", "ltpdo", "rrpdo", "rrpdo", "rtpdo", "rtpdo", "lrpdo", "lrpdo"][i % 8]})
         for i in range(200 if args.tier == "quick" else 4000):
             cases.append({"ops": random_ops(rng, rng.choice([10, 40, 200])), "modifiable": i % 2 == 0,
-                          "nid": rng.choice([1, 5, 100]), "src": "random"})
+                          "nid": rng.choice([1, 5, 100]), "src": "random",
+                          "pdomap": ["ltpdo", "ltpdo", "rrpdo", "rrpdo", "rtpdo", "rtpdo", "lrpdo", "lrpdo"][i % 8]})
     results = run_cases("harness.drv_periodic:run_case", cases, jobs=args.jobs, timeout=120)
     if any(r.get("hang") for r in results):
         raise RuntimeError("driver hang")
